@@ -21,6 +21,8 @@ and lets everything run to completion (the observables are still checked)."""
 import threading
 
 
+_ABSENT = object()
+
 class VKilled(BaseException):
     pass
 
@@ -322,7 +324,9 @@ class Replay:
     def __enter__(self):
         kd = self.kd
         for name in ("Process", "Manager", "cpu_count", "time", "os"):
-            self.saved[name] = getattr(kd, name)
+            # a collaborator the module does not import (any more) is installed all the same and
+            # removed again on exit
+            self.saved[name] = getattr(kd, name, _ABSENT)
             setattr(kd, name, getattr(self.f, name))
         self.saved_thr = kd.KernelDG.INSTRUCTION_THRESHOLD
         kd.KernelDG.INSTRUCTION_THRESHOLD = self.threshold
@@ -339,7 +343,10 @@ class Replay:
     def __exit__(self, *a):
         self.s.reap()
         for name, val in self.saved.items():
-            setattr(self.kd, name, val)
+            if val is _ABSENT:
+                delattr(self.kd, name)
+            else:
+                setattr(self.kd, name, val)
         self.kd.KernelDG.INSTRUCTION_THRESHOLD = self.saved_thr
         return False
 
